@@ -108,6 +108,10 @@ pub fn install_panic_hook() {
         };
         let mut msg: String = msg.chars().take(300).collect();
         msg = msg.replace('\n', " ");
+        // a panic inside the harness itself is not caught anywhere: say what it was before the process dies with 101
+        if loc.contains("/verif/harness/") || loc.starts_with("mon/src") || loc.starts_with("wlcore/") || loc.starts_with("zspec/") {
+            eprintln!("HARNESS-PANIC {loc}: {msg}");
+        }
         LAST_PANIC.with(|p| *p.borrow_mut() = Some(format!("{loc}: {msg}")));
     }));
 }
